@@ -589,7 +589,7 @@ theorem C02_multi_base_example :
 well-typed value back unchanged: the parse succeeds exactly when every compiled constraint accepts the value, the
 contains family holds, and the hook accepts — nothing is skipped, nothing else is checked -/
 theorem C02_parse_typed_iff (P : Prims) (d : Decl) (v r : PyVal)
-    (hargs : ∀ f, d.args = some f → f v = .ok v)
+    (hargs : ∀ f, d.args = some f → f v = .ok v ∧ d.pack v = .ok v)
     (hp : ∀ c ∈ d.validators, ∃ f, validatorOf c.1 = some f ∧ Preserving f) :
     parseTyped P d v = .ok r ↔
       (∀ c ∈ d.validators, ∃ f, validatorOf c.1 = some f ∧ f P v c.2 = .ok v) ∧
@@ -599,7 +599,9 @@ theorem C02_parse_typed_iff (P : Prims) (d : Decl) (v r : PyVal)
     unfold applyArgs
     cases ha : d.args with
     | none => rfl
-    | some f => exact hargs f ha
+    | some f =>
+      obtain ⟨h1, h2⟩ := hargs f ha
+      simp only [h1, h2, bind, Except.bind]
   rw [h1]
   simp only [bind, Except.bind]
   cases hv : validate P d.validators v with
